@@ -66,3 +66,8 @@ EDITS += [
     {'id': 'boundaries-end-second-last', 'expect': 'fire', 'rule': 'C10.O5', 'file': 'spowtd/load.py', 'old': '        + [time_grid[-1]]\n', 'new': '        + [time_grid[-2]]\n'},
     {'id': 'boundaries-end-by-length', 'expect': 'silent', 'file': 'spowtd/load.py', 'old': '        + [time_grid[-1]]\n', 'new': '        + [time_grid[len(time_grid) - 1]]\n'},
 ]
+
+EDITS += [
+    {"id": "sentinel-test-keeps-the-unlabelled", "expect": "fire", "rule": "C10.O5", "file": L,
+     "old": "    valid_mask = data_intervals != -1", "new": "    valid_mask = data_intervals == -1"},
+]
